@@ -23,7 +23,7 @@ EXPLANATION = (
     "absent from the error map that are readable; (G3) BLE notifies only after the write awaits returned, only for "
     "readable characteristics, never swallows a failed write and reports read-only characteristics as "
     "CANT_WRITE_READ_ONLY; (K2) the three transports notify with the same shape {(aid, iid): {'value': value}}. "
-    "Quantifier: all paths through the result loops - not sampled reply vectors."
+    "Quantifier: all paths through the result loops - not sampled reply vectors. Added from a seeded fault: the characteristics list of a write reply is indexed, not defaulted to empty (a reply without a list is not 'nothing failed')."
 )
 TRUSTED = ["HTTP 204 (empty) means every item of a write was accepted (HAP 6.7.2.2)"]
 
